@@ -267,37 +267,58 @@ fn instance(tx: mpsc::Sender<Value>, seed: u64, flavor: String, exec: String, ti
         if r < 30 {
             // sometimes another thread keeps a lookup guard on a resident key meanwhile: an eviction (or a sweep) that needs
             // that key's shard has to wait for the guard, not skip the removal
-            let mut holder = None;
+            let holder: Option<()> = None;
+            let mut fresh: Vec<u64> = Vec::new();
             if !tiny && rng.gen_bool(0.5) {
                 let p = post(&api.0);
+                // keys that are NOT resident: their inserts are New items, applied by the processor (an insert of a resident
+                // key would wait for the guard on the client's own thread and the guards would be gone afterwards)
+                let resident: Vec<u64> = p["store"].as_array().unwrap().iter().map(|e| e["i"].as_u64().unwrap()).collect();
+                fresh = keys.iter().copied().filter(|k| {
+                    let idx = if *k == crate::cache::SHARD_MATE { 258 } else { crate::cache::KEYTAB[*k as usize].0 };
+                    !resident.contains(&idx)
+                }).collect();
                 // every resident key: whichever the policy picks as victim, its shard is pinned (the lookups are counted: all of
                 // the keys asked for, hit or miss)
                 let ks: Vec<u64> = p["store"].as_array().unwrap().iter()
                     .filter_map(|e| crate::cache::KEYTAB.iter().position(|kt| kt.0 == e["i"].as_u64().unwrap()).map(|x| x as u64))
                     .collect();
-                if !ks.is_empty() {
-                    lookups += ks.len() as u64;
-                    let (h, _n) = api.hold_refs(ks, 30);
-                    holder = Some(h);
-                }
-            }
-            let v = next_val;
-            next_val += 1;
-            if api.insert(k, v, rng.gen_range(1..4), 0) {
-                accepted.push(v);
+                let _ = &ks;
             }
             if holder.is_some() {
-                // more newcomers while the guards are held: victims are chosen among the residents
-                for _ in 0..6 {
+                unreachable!();
+            } else if !fresh.is_empty() {
+                // The processor is parked inside on_reject of an oversize item; newcomers are queued behind it (their client
+                // halves need the shard locks, so the guards come after); then another thread pins every resident key; then
+                // the processor is let go: the victims it picks are pinned, and so is the shard of the shard-mate's own insert.
+                crate::cache::GATE_CLOSED.store(true, Ordering::SeqCst);
+                let v = next_val;
+                next_val += 1;
+                if api.insert(9, v, 1_000_000, 0) {
+                    accepted.push(v);
+                }
+                std::thread::sleep(Duration::from_millis(2));
+                for fk in fresh.iter() {
                     let v = next_val;
                     next_val += 1;
-                    if api.insert(keys[rng.gen_range(0..keys.len())], v, rng.gen_range(2..4), 0) {
+                    if api.insert(*fk, v, rng.gen_range(2..4), 0) {
                         accepted.push(v);
                     }
                 }
-            }
-            if let Some(h) = holder {
+                let p = post(&api.0);
+                let ks: Vec<u64> = p["store"].as_array().unwrap().iter()
+                    .filter_map(|e| crate::cache::KEYTAB.iter().position(|kt| kt.0 == e["i"].as_u64().unwrap()).map(|x| x as u64))
+                    .collect();
+                lookups += ks.len() as u64;
+                let (h, _n) = api.hold_refs(ks, 30);
+                crate::cache::GATE_CLOSED.store(false, Ordering::SeqCst);
                 let _ = h.join();
+            } else {
+                let v = next_val;
+                next_val += 1;
+                if api.insert(k, v, rng.gen_range(1..4), 0) {
+                    accepted.push(v);
+                }
             }
             what = "insert";
         } else if r < 60 {
@@ -831,6 +852,60 @@ fn par_instance(tx: mpsc::Sender<Value>, seed: u64, flavor: String, exec: String
         }
         api.wait();
         let _ = tx.send(json!({"ev":"Foreign","foreign":foreign.load(Ordering::SeqCst),"lookups":looked.load(Ordering::SeqCst)}));
+    }
+    // (2e) one key switched between TTL and no TTL by two threads at once, while two more keep the expiration map's lock busy:
+    // replacement and re-filing are one critical section, so after every round the expiration index matches the entry that won
+    let _ = tx.send(json!({"ev":"Op","completed":true,"begin":true,"what":"parallel TTL / no-TTL writes of one key"}));
+    {
+        let stopf = Arc::new(AtomicBool::new(false));
+        let noise: Vec<_> = (0..4u64)
+            .map(|t| {
+                let (api, stopf) = (api.clone(), stopf.clone());
+                std::thread::Builder::new()
+                    .name(format!("par-n{}", t))
+                    .spawn(move || {
+                        let mut v = 5_000_000 + t * 100_000;
+                        while !stopf.load(Ordering::SeqCst) {
+                            v += 1;
+                            api.insert(5 + t, v, 1, 3_600_000 + (v % 5) * 1000);
+                        }
+                    })
+                    .expect("spawn")
+            })
+            .collect();
+        let k = 4u64;
+        for round in 0..300u64 {
+            let v = 6_000_000 + round * 4;
+            api.insert(k, v, 1, 3_600_000);
+            api.wait();
+            let barrier = Arc::new(std::sync::Barrier::new(2));
+            let hs: Vec<_> = (0..2u64)
+                .map(|t| {
+                    let (api, barrier) = (api.clone(), barrier.clone());
+                    std::thread::spawn(move || {
+                        barrier.wait();
+                        if t == 0 {
+                            api.insert(k, v + 1, 1, 0);
+                        } else {
+                            api.insert(k, v + 2, 1, 3_600_000);
+                        }
+                    })
+                })
+                .collect();
+            for h in hs {
+                let _ = h.join();
+            }
+            let p = post(&api.0);
+            let idx = crate::cache::KEYTAB[k as usize].0;
+            let st: Vec<&Value> = p["store"].as_array().unwrap().iter().filter(|e| e["i"].as_u64() == Some(idx)).collect();
+            let em: Vec<&Value> = p["em"].as_array().unwrap().iter().filter(|e| e[1].as_u64() == Some(idx)).collect();
+            let _ = tx.send(json!({"ev":"Index","store":st,"em":em}));
+        }
+        stopf.store(true, Ordering::SeqCst);
+        for h in noise {
+            let _ = h.join();
+        }
+        api.wait();
     }
     // (2d) clear() while other threads only LOOK UP (no writes in flight, so the known race D7 of clear() with buffered items
     // cannot occur): the lookups keep the policy mutex and the counters busy; after clear() returned the cache is empty and the
